@@ -112,6 +112,18 @@ def run_history(pool, ops, coder_caches, table_limit):
             else:
                 if want[0] == 'ok' or want[1] != o.exc_type:
                     return div('decode outcome', '%s: %s @%s' % (o.exc_type, o.msg, o.frame), want if want[0] != 'ok' else 'ok')
+        elif kind == 'lenient':
+            # the documented lenient mode (signatures not validated), e.g. a retry on a file that failed: whatever it
+            # returns for a damaged message, a valid one decodes as always -- and the coder is as strict as before afterwards
+            o = sut.call(decs[j].process, p['bytes'], ignore_value_expectation=True)
+            want = base['decode']
+            if want[0] == 'ok':
+                if not o.ok:
+                    return div('lenient decode outcome', '%s: %s @%s' % (o.exc_type, o.msg, o.frame), 'ok')
+                got = observe_message(o.value)
+                for k in ('values', 'labels', 'links', 'bytes', 'flat_json'):
+                    if got[k] != want[1][k]:
+                        return div('lenient decode: ' + k, _first_diff(got[k], want[1][k]) if k != 'flat_json' else None, None)
         elif kind == 'info':
             o = sut.call(decs[j].process, p['bytes'], info_only=True)
             want = base['info']
@@ -297,10 +309,10 @@ def gen_hist(ch, opts, real_limit=False):
         i = ch.int(0, n_pool - 1)
         j = ch.int(0, n_coders - 1)
         if i >= len(cases):
-            kind = ch.choice(['fail', 'fail', 'info'])
+            kind = ch.choice(['fail', 'fail', 'info', 'lenient'])
         else:
             kind = ch.weighted([(6, 'decode'), (2, 'encode'), (1, 'info'), (1, 'render'), (1, 'rewire'), (2, 'query'), (1, 'subset'),
-                                (1, 'badquery')])
+                                (1, 'badquery'), (1, 'lenient')])
         if kind == 'badquery':
             ops.append((kind, ch.int(0, len(BAD_QUERIES) - 1), i))
             if ch.bool(2, 3):
@@ -343,6 +355,10 @@ def classify(hc):
             seen_groups.append(g)
         if kind == 'badquery':
             classes.add('failed_query')
+        if kind == 'lenient':
+            classes.add('lenient_decode')
+            if any(kk == 'fail' and jj == j and x >= n_cases and hc.damaged[x - n_cases][1] is None for (kk, jj, x) in hc.ops[step + 1:]):
+                classes.add('strict_decode_of_a_damaged_signature_after_a_lenient_decode')
         if kind == 'fail':
             any_fail = True
             classes.add('failed_operation')
